@@ -610,6 +610,9 @@ func checkC15(c *Ctx, r *Report) {
 		r.add("C15.e", "mustcall", adj+":warning-attached", "adjustDiagsForConflictingEntry always attaches a DiagRouteConflict warning", []string{adj}, sites, viol)
 	}
 	ruleMustCall(c, r, "C15.e", fc, pkgPaths+".inPlaceSortConflicts", "the conflict list is sorted before it is returned")
+
+	// every element filter in these packages is a reviewed one
+	ruleSkipInventory(c, r, "C15.b", loadSkipTable(c.VerifDir), 5, "core/validators/paths")
 }
 
 func (a *Atoms) hasIdentType(sub string) bool {
